@@ -7,7 +7,7 @@ namespace Pyttb.Driver
 
 /-! JSON forms of the C02 operands and results. -/
 
-def asPart (j : Json) : R (Part Rat) := do
+def asPart (j : Json) : R (ML.Part Rat) := do
   let k ← field j "kind" >>= asStr
   match k with
   | "dense" => do let t ← asDense j; .ok (.dense t)
@@ -17,7 +17,7 @@ def asPart (j : Json) : R (Part Rat) := do
   | _ => .error s!"bad part kind {k}"
 
 /-- Any holder: a single object or a sum tensor. -/
-def asHolder (j : Json) : R (Part Rat ⊕ Sumtensor Rat) := do
+def asHolder (j : Json) : R (ML.Part Rat ⊕ ML.Sumtensor Rat) := do
   let k ← field j "kind" >>= asStr
   if k == "sum" then do
     let ps ← field j "parts" >>= asList asPart
@@ -28,7 +28,7 @@ def asHolder (j : Json) : R (Part Rat ⊕ Sumtensor Rat) := do
 
 def tag (k : String) (j : Json) : Json := j.mergeObj (Json.mkObj [("kind", Json.str k)])
 
-def partJ : Part Rat → Json
+def partJ : ML.Part Rat → Json
   | .dense t => tag "dense" (denseJ t)
   | .sparse s => tag "sparse" (sparseJ s)
   | .kruskal k => tag "kruskal" (ktensorJ k)
@@ -36,7 +36,7 @@ def partJ : Part Rat → Json
 
 def scalarJ (v : Rat) : Json := Json.mkObj [("kind", Json.str "scalar"), ("value", ratJ v)]
 
-def resJ : Res Rat → Json
+def resJ : ML.Res Rat → Json
   | .scalar v => scalarJ v
   | .dense t => tag "dense" (denseJ t)
   | .sparse s => tag "sparse" (sparseJ s)
@@ -60,7 +60,7 @@ def asKOperand (j : Json) : R (KOperand Rat) :=
   | none => do let k ← field j "kruskal" >>= asKtensor; .ok (.kruskal k)
 
 /-- Denotation of a holder, tabulated once (so that the spec sums read a table). -/
-def holderDen : Part Rat ⊕ Sumtensor Rat → Den Rat
+def holderDen : ML.Part Rat ⊕ ML.Sumtensor Rat → Den Rat
   | .inl p => (Den.tab ⟨p.shape, p.get⟩).den
   | .inr ps =>
     let shape := (ps.headD (.dense ⟨[], []⟩)).shape
@@ -99,7 +99,7 @@ def ops02 : List (String × Op) := [
       | .inl (.kruskal k) => exceptJ (sorJ (fun o => tag "kruskal" (ktensorJ o))) (k.ttv vs dims excl)
       | .inl (.tucker t) => exceptJ (sorJ (fun o => tag "tucker" (ttensorJ o))) (t.ttv vs dims excl)
       | .inr ps => exceptJ (sorJ (fun o => Json.mkObj [("kind", Json.str "sum"), ("parts", listJ partJ o)]))
-                    (Sumtensor.ttv ps vs dims excl)
+                    (ML.Sumtensor.ttv ps vs dims excl)
     let D := holderDen X
     let spec := specTab (Spec.ttvShape D.shape sel) (Spec.ttv D sel (vecAt sel ws))
     .ok (both model spec)),
@@ -135,7 +135,7 @@ def ops02 : List (String × Op) := [
     let lam ← field j "lam" >>= asRats
     let model : Json := match X with
       | .inl p => exceptJ matJ (p.mttkrp U n)
-      | .inr ps => exceptJ matJ (Sumtensor.mttkrp ps U n)
+      | .inr ps => exceptJ matJ (ML.Sumtensor.mttkrp ps U n)
     let D := holderDen X
     let R := lam.length
     let spec := matJ ((List.range (D.shape.getD n 0)).map fun i => (List.range R).map fun r =>
@@ -157,7 +157,7 @@ def ops02 : List (String × Op) := [
     let Y ← field j "Y" >>= asPart
     let model : Json := match X with
       | .inl p => exceptJ ratJ (p.innerprod Y)
-      | .inr ps => exceptJ ratJ (Sumtensor.innerprod ps Y)
+      | .inr ps => exceptJ ratJ (ML.Sumtensor.innerprod ps Y)
     let spec := ratJ (Spec.inner (holderDen X) (holderDen (.inl Y)))
     .ok (both model spec)),
   ("c02_norm", fun j => do
@@ -228,7 +228,7 @@ def ops02 : List (String × Op) := [
     let X ← field j "X" >>= asHolder
     let model : Json := match X with
       | .inl p => exceptJ (fun o => tag "dense" (denseJ o)) p.full
-      | .inr ps => exceptJ (fun o => tag "dense" (denseJ o)) (Sumtensor.full ps)
+      | .inr ps => exceptJ (fun o => tag "dense" (denseJ o)) (ML.Sumtensor.full ps)
     let D := holderDen X
     .ok (both model (tag "dense" (denseJ (Den.tab D)))))
 ]
